@@ -211,6 +211,8 @@ def evaluate(cfg, shape, xs, st=None, q=None, prime=False):
                   (xf, yf, sf, (yf / sf if sf else float("nan")), cset)))
   wrong = (~off) & known & (cobs != cexp) & ~zero_s
   if wrong.any():
+    if (wrong & inside).any():
+      wrong = wrong & inside        # report an in-regime element first
     idx = np.nonzero(wrong.reshape(-1))[0]
     i = int(idx[np.argmin(np.abs(x.reshape(-1)[idx]))])
     xf = x.reshape(-1)[i]
